@@ -36,6 +36,8 @@ SPEC = {
 }
 SPEC['explanation'] += ' T7.gap: inside the loop of format_int_list a run is written out only on paths whose integer tests on `x - <end of run>` exclude 0 and 1 (a duplicate never closes a run).'
 SPEC['decided'] += ['run closed only on a gap']
+SPEC['explanation'] += ' T30 also understands `<char> in arg` tests and an argument emitted as a whole: sound only for an argument without a double quote that is emitted unquoted.'
+SPEC['decided'] += ['whole-argument fast path of args2cmd']
 MANIFEST = {
     'technique': 'regex-AST class extraction vs frozen POSIX table; guarded-emission and ordering checks on CFG paths; constant folding of wbits',
     'text': ('Decides, exhaustively over the character class, that args2sh never emits an unsafe character unquoted (including '
